@@ -25,6 +25,7 @@ The translator is a symbolic executor of straight-line code:
 Anything outside the grammar makes the kernel `untranslated "<name>" "<reason>"` — never a guess."""
 from __future__ import annotations
 import ast
+import re
 from fractions import Fraction
 from ..common import LEAN, REPO
 
@@ -55,6 +56,56 @@ KERNELS = [
     ("confusion_matrix", "_binary_confusion_matrix_compute", "binary_confusion_matrix_compute"),
 ]
 
+# C07: aggregation / regression / image kernels (module path relative to torcheval/metrics/functional)
+KERNELS_AGG = [
+    ("aggregation/mean", "_mean_update", "mean_update"),
+    ("aggregation/mean", "_mean_compute", "mean_compute"),
+    ("aggregation/sum", "_sum_update", "sum_update"),
+    ("aggregation/auc", "_auc_compute", "auc_compute"),
+    ("regression/mean_squared_error", "_update", "mse__update"),
+    ("regression/mean_squared_error", "_mean_squared_error_update", "mean_squared_error_update"),
+    ("regression/mean_squared_error", "_mean_squared_error_compute", "mean_squared_error_compute"),
+    ("regression/r2_score", "_update", "r2__update"),
+    ("regression/r2_score", "_r2_score_update", "r2_score_update"),
+    ("regression/r2_score", "_compute", "r2__compute"),
+    ("regression/r2_score", "_r2_score_compute", "r2_score_compute"),
+    ("image/psnr", "_psnr_update", "psnr_update"),
+    ("image/psnr", "_psnr_compute", "psnr_compute"),
+]
+# C08: ranking kernels
+KERNELS_RANK = [
+    ("ranking/click_through_rate", "_click_through_rate_update", "click_through_rate_update"),
+    ("ranking/click_through_rate", "_click_through_rate_compute", "click_through_rate_compute"),
+    ("ranking/weighted_calibration", "_weighted_calibration_update", "weighted_calibration_update"),
+    ("ranking/weighted_calibration", "_weighted_calibration_compute", "weighted_calibration_compute"),
+    ("ranking/hit_rate", "hit_rate", "hit_rate"),
+    ("ranking/reciprocal_rank", "reciprocal_rank", "reciprocal_rank"),
+    ("ranking/frequency", "frequency_at_k", "frequency_at_k"),
+    ("ranking/num_collisions", "num_collisions", "num_collisions"),
+]
+# C05: curve kernels
+KERNELS_CURVE = [
+    ("tensor_utils", "_riemann_integral", "riemann_integral"),
+    ("classification/precision_recall_curve", "_compute_for_each_class", "compute_for_each_class"),
+    ("classification/precision_recall_curve", "_binary_precision_recall_curve_compute", "binary_precision_recall_curve_compute"),
+    ("classification/auroc", "_binary_auroc_compute_jit", "binary_auroc_compute_jit"),
+]
+# family -> where the source lives, which kernels, where the generated terms go; `partial`: kernels in which a branch
+# on a configuration value that leaves the grammar becomes an `.unsupported "<reason>"` leaf instead of dropping the kernel
+FAMILIES = {
+    "C04": {"base": BASE, "kernels": KERNELS, "file": "Kernels.lean", "ns": "TE.Gen", "partial": set()},
+    "C07": {"base": "torcheval/metrics/functional", "kernels": KERNELS_AGG, "file": "KernelsAgg.lean", "ns": "TE.Gen.Agg",
+            "partial": {"auc_compute"}},
+    "C08": {"base": "torcheval/metrics/functional", "kernels": KERNELS_RANK, "file": "KernelsRank.lean", "ns": "TE.Gen.Rank",
+            "partial": set()},
+    "C05": {"base": "torcheval/metrics/functional", "kernels": KERNELS_CURVE, "file": "KernelsCurve.lean", "ns": "TE.Gen.Curve",
+            "partial": {"binary_auroc_compute_jit"}},
+}
+EXC = {"ValueError": "value", "TypeError": "type", "RuntimeError": "runtime", "IndexError": "index", "AssertionError": "assertion",
+       "NotImplementedError": "notImpl"}
+FINFO = {("float64", "eps"): Fraction(1, 2 ** 52), ("float32", "eps"): Fraction(1, 2 ** 23), ("float", "eps"): Fraction(1, 2 ** 23),
+         ("double", "eps"): Fraction(1, 2 ** 52)}
+
 IDENT_METHODS = {"long", "float", "int", "double", "half", "type", "to", "clone", "detach", "contiguous", "cpu"}
 IGNORED_KW = {"dtype", "device", "requires_grad"}
 CMP = {"Lt": "lt", "Gt": "gt", "LtE": "le", "GtE": "ge", "Eq": "eq", "NotEq": "ne"}
@@ -74,6 +125,7 @@ class SV:
        T  numeric tensor      B  boolean tensor     P  python configuration value (int / float / str / None / bool)
        R  result of an inlined kernel (may only be returned)
        tuple (items = list of SV)       pseudo (term[0] names it: zeros / vstack / size / coo / maxdim / shape / glob / dtype)
+       D  dynamically typed parameter (`float | int | Tensor`, `Tensor | None`): accepted wherever a tensor or a number is
        O  opaque (must not reach the result)"""
     __slots__ = ("term", "kind", "items")
 
@@ -81,11 +133,36 @@ class SV:
         self.term, self.kind, self.items = term, kind, items
 
     def is_tensor(self):
-        return self.kind in ("T", "B", "U")
+        return self.kind in ("T", "B", "U", "D")
 
 
 def opaque(why):
     return SV(("opaque", why), "O")
+
+
+def mentions(t, heads) -> bool:
+    return isinstance(t, tuple) and (t[0] in heads or any(mentions(a, heads) for a in t[1:]))
+
+
+def maybe_scripted(fn, t):
+    """inside a `@torch.jit.script` function an out-of-range position (`x[-1]` of an empty tensor) is a RuntimeError"""
+    scripted = any((dotted(d) or "") == "torch.jit.script" for d in fn.decorator_list)
+    if scripted and mentions(t, ("first", "last")) and t[0] != "scripted":
+        return ("scripted", t)
+    return t
+
+
+def returns_tuple(t) -> bool:
+    """does the term of an inlined function end in a tuple (through its branches)?"""
+    if t[0] == "pair":
+        return True
+    if t[0] in ("ite", "iteT"):
+        return returns_tuple(t[2]) or returns_tuple(t[3])
+    if t[0] == "assert":
+        return returns_tuple(t[2])
+    if t[0] == "scripted":
+        return returns_tuple(t[1])
+    return False
 
 
 def const_of(sv):
@@ -99,9 +176,9 @@ def const_of(sv):
 
 
 class Module:
-    def __init__(self, name):
+    def __init__(self, name, base=BASE):
         self.name = name
-        path = REPO / BASE / f"{name}.py"
+        path = REPO / base / f"{name}.py"
         self.tree = ast.parse(path.read_text())
         self.funcs = {n.name: n for n in self.tree.body if isinstance(n, ast.FunctionDef)}
         # module-level aliases such as `norm = torch.nn.functional.normalize`
@@ -114,6 +191,10 @@ class Module:
             if isinstance(n, ast.ImportFrom) and n.module:
                 for a in n.names:
                     self.alias[a.asname or a.name] = n.module + "." + a.name
+            if isinstance(n, ast.Import):
+                for a in n.names:
+                    if a.asname and a.name.startswith("torch."):
+                        self.alias[a.asname] = a.name
 
 
 def dotted(e):
@@ -126,10 +207,47 @@ def dotted(e):
 
 
 class Exec:
-    def __init__(self, mod: Module, kernel_names):
+    def __init__(self, mod: Module, kernel_names, partial=False):
         self.mod = mod
         self.kernel_names = kernel_names          # private helpers of this module that may be inlined
         self.depth = 0
+        self.partial = partial
+
+    # ------------------------------------------------------------------ refinement of dynamically typed parameters
+    def refine(self, test, env, truth):
+        """environment in which `test` is known to be `truth`: `isinstance(w, torch.Tensor)`, `isinstance(w, float)`,
+        `w is None`, `w is not None`, conjunctions (when true) and disjunctions (when false) of these"""
+        if isinstance(test, ast.BoolOp):
+            if (isinstance(test.op, ast.And) and truth) or (isinstance(test.op, ast.Or) and not truth):
+                for v in test.values:
+                    env = self.refine(v, env, truth)
+            elif isinstance(test.op, ast.Or) and truth:
+                # `isinstance(w, float) or isinstance(w, int)`: every disjunct makes the same parameter a number
+                envs = [self.refine(v, env, True) for v in test.values]
+                names = [[k for k in e_ if e_[k] is not env.get(k)] for e_ in envs]
+                if all(len(n) == 1 for n in names) and len({n[0] for n in names}) == 1 \
+                        and len({envs[i][names[i][0]].kind for i in range(len(envs))}) == 1:
+                    return envs[0]
+            return env
+        if isinstance(test, ast.UnaryOp) and isinstance(test.op, ast.Not):
+            return self.refine(test.operand, env, not truth)
+        name, kind = None, None
+        if isinstance(test, ast.Call) and isinstance(test.func, ast.Name) and test.func.id == "isinstance" and len(test.args) == 2 \
+                and isinstance(test.args[0], ast.Name):
+            ty = dotted(test.args[1])
+            if ty in ("torch.Tensor", "Tensor"):
+                name, kind = test.args[0].id, ("T" if truth else None)
+            elif ty in ("float", "int") and truth:
+                name, kind = test.args[0].id, "P"
+        if isinstance(test, ast.Compare) and len(test.ops) == 1 and isinstance(test.left, ast.Name) \
+                and isinstance(test.comparators[0], ast.Constant) and test.comparators[0].value is None:
+            isnone = isinstance(test.ops[0], (ast.Is, ast.Eq))
+            if isinstance(test.ops[0], (ast.Is, ast.Eq, ast.IsNot, ast.NotEq)):
+                name, kind = test.left.id, ("P" if isnone == truth else "T")
+        if name is not None and kind is not None and name in env and env[name].kind == "D":
+            env = dict(env)
+            env[name] = SV(env[name].term, kind)
+        return env
 
     # ------------------------------------------------------------------ blocks (continuation passing)
     def block(self, stmts, env):
@@ -144,11 +262,34 @@ class Exec:
                 d = dotted(s.value.func) or ""
                 if d.endswith("_input_check") or d.endswith("_param_check") or d.startswith("logging.") or d.startswith("warnings."):
                     return self.block(rest, env)
+                f = s.value.func
+                if isinstance(f, ast.Attribute) and isinstance(f.value, ast.Name) and f.attr.endswith("_") and f.value.id in env \
+                        and f.value.id not in ("torch",):
+                    # an in-place method on a local (`counts.scatter_(...)` returns self): the local now holds the result
+                    env = dict(env)
+                    env[f.value.id] = self.ev(s.value, env)
+                    return self.block(rest, env)
             raise Unsupported("expression statement " + ast.unparse(s)[:60])
         if isinstance(s, ast.Return):
             if s.value is None:
                 raise Unsupported("bare return")
             return self.result_term(self.ev(s.value, env))
+        if isinstance(s, ast.Raise):
+            exc = s.exc.func if isinstance(s.exc, ast.Call) else s.exc
+            name = dotted(exc) if exc is not None else None
+            if name not in EXC:
+                raise Unsupported("raise " + str(name))
+            return ("raise_", EXC[name])
+        if isinstance(s, ast.Assign) and len(s.targets) == 1 and isinstance(s.targets[0], ast.Subscript) \
+                and isinstance(s.targets[0].value, ast.Name) and s.targets[0].value.id in env:
+            # `a[mask] = <number>`
+            tgt = s.targets[0]
+            a, m, v = env[tgt.value.id], self.ev(tgt.slice, env), self.ev(s.value, env)
+            if not (a.kind == "T" and m.kind == "B" and v.kind == "P" and v.term[0] in ("int", "flt")):
+                raise Unsupported("indexed assignment other than `tensor[mask] = <number>`")
+            env = dict(env)
+            env[tgt.value.id] = SV(("maskedFill", a.term, m.term, v.term), "T")
+            return self.block(rest, env)
         if isinstance(s, (ast.Assign, ast.AnnAssign)):
             if isinstance(s, ast.AnnAssign):
                 if s.value is None:
@@ -166,10 +307,23 @@ class Exec:
             if c.kind != "P":
                 raise Unsupported("assert on a non-configuration value")
             return ("assert", c.term, self.block(rest, env))
+        if isinstance(s, ast.If) and isinstance(s.test, ast.UnaryOp) and isinstance(s.test.op, ast.Not):
+            # `if not c: A else: B` is `if c: B else: A` (also for one-element tensors, where `not` has no term)
+            return self.block([ast.If(test=s.test.operand, body=list(s.orelse) or [ast.Pass()], orelse=list(s.body))] + rest, env)
         if isinstance(s, ast.If):
             c = self.ev(s.test, env)
-            a = self.block(list(s.body) + rest, env)
-            b = self.block(list(s.orelse) + rest, env)
+            if self.partial and c.kind == "P":
+                try:
+                    a = self.block(list(s.body) + rest, self.refine(s.test, env, True))
+                except Unsupported as u:
+                    a = ("unsupported", str(u))
+                try:
+                    b = self.block(list(s.orelse) + rest, self.refine(s.test, env, False))
+                except Unsupported as u:
+                    b = ("unsupported", str(u))
+            else:
+                a = self.block(list(s.body) + rest, self.refine(s.test, env, True))
+                b = self.block(list(s.orelse) + rest, self.refine(s.test, env, False))
             if a == b:
                 return a
             if c.kind == "P":
@@ -186,6 +340,14 @@ class Exec:
             env[target.id] = v
             return
         if isinstance(target, (ast.Tuple, ast.List)):
+            if v.kind == "R" and len(target.elts) >= 2:
+                # projections of the (right-nested) tuple an inlined kernel returns
+                n, t = len(target.elts), v.term
+                items = []
+                for i in range(n):
+                    items.append(SV(("fst", t) if i < n - 1 else t, "T"))
+                    t = ("snd", t)
+                v = SV(("tuple",), "tuple", items)
             if v.kind != "tuple" or len(v.items) != len(target.elts):
                 raise Unsupported("tuple assignment from a non-tuple")
             for t, x in zip(target.elts, v.items):
@@ -215,7 +377,7 @@ class Exec:
                 return env[e.id]
             if e.id in self.mod.alias:
                 return SV(("glob", self.mod.alias[e.id]), "pseudo")
-            if e.id in self.mod.funcs or e.id in ("torch", "logging", "isinstance", "len", "int", "float", "str", "bool"):
+            if e.id in self.mod.funcs or e.id in ("torch", "logging", "isinstance", "len", "int", "float", "str", "bool", "math"):
                 return SV(("glob", e.id), "pseudo")
             # a local that is not bound on this path (Python raises UnboundLocalError when it is used; `eval` fails on
             # the unbound variable): reachable only for configurations the earlier branches exclude
@@ -227,7 +389,10 @@ class Exec:
         if isinstance(e, ast.Compare):
             return self.compare(e, env)
         if isinstance(e, ast.BoolOp):
-            vals = [self.ev(v, env) for v in e.values]
+            vals, env_i = [], env
+            for v in e.values:
+                vals.append(self.ev(v, env_i))
+                env_i = self.refine(v, env_i, isinstance(e.op, ast.And))
             if all(v.kind == "P" for v in vals):
                 op = "pyAnd" if isinstance(e.op, ast.And) else "pyOr"
                 t = vals[-1].term
@@ -247,6 +412,8 @@ class Exec:
                 return opaque("`not` on a tensor")
             if isinstance(e.op, ast.USub) and v.kind == "P" and v.term[0] in ("int", "flt"):
                 return self.const(-v.term[1])
+            if isinstance(e.op, ast.USub) and v.kind == "T":
+                return SV(("neg", v.term), "T")
             raise Unsupported("unary " + type(e.op).__name__)
         if isinstance(e, ast.BinOp):
             return self.binop(e, env)
@@ -256,6 +423,14 @@ class Exec:
             return self.call(e, env)
         if isinstance(e, ast.JoinedStr):
             return opaque("f-string")
+        if isinstance(e, ast.IfExp):
+            c = self.ev(e.test, env)
+            a, b = self.ev(e.body, self.refine(e.test, env, True)), self.ev(e.orelse, self.refine(e.test, env, False))
+            if c.kind != "P" or not all(v.kind in ("T", "B", "P") for v in (a, b)):
+                raise Unsupported("conditional expression on other than a configuration value")
+            if a.term == b.term:
+                return a
+            return SV(("ite", c.term, a.term, b.term), "T" if "T" in (a.kind, b.kind) else a.kind)
         if isinstance(e, ast.List):
             return SV(("list",), "tuple", [self.ev(x, env) for x in e.elts])
         raise Unsupported("expression " + type(e).__name__)
@@ -294,6 +469,14 @@ class Exec:
                 raise Unsupported("transpose")
         if base.kind == "pseudo" and base.term[0] == "glob":
             return SV(("glob", base.term[1] + "." + e.attr), "pseudo")
+        if base.kind == "pseudo" and base.term[0] == "finfo":
+            if base.term[1] is None:
+                if e.attr in ("tiny", "eps"):
+                    # the dtype is not modelled: the constant is a PARAMETER of the term (bound by the theorem / the driver request)
+                    return SV(("var", "finfo." + e.attr), "P")
+            elif (base.term[1], e.attr) in FINFO:
+                return self.const(FINFO[(base.term[1], e.attr)])
+            raise Unsupported("torch.finfo(...)." + e.attr)
         if base.kind == "pseudo" and base.term[0] == "topk" and e.attr in ("indices", "values"):
             raise Unsupported("torch.topk (tie order unspecified)")
         raise Unsupported("attribute ." + e.attr)
@@ -305,6 +488,12 @@ class Exec:
         op = type(e.ops[0]).__name__
         if a.kind == "O" or b.kind == "O":
             return opaque("comparison of " + (a.term[1] if a.kind == "O" else b.term[1]))
+        if a.kind == "D" and b.kind == "P" and b.term == ("none",) and op in ("Is", "Eq", "IsNot", "NotEq"):
+            t = ("isNone", a.term)
+            return SV(t if op in ("Is", "Eq") else ("pyNot", t), "P")
+        if a.kind == "pseudo" and b.kind == "pseudo" and a.term[0] == "sizeof" and b.term[0] == "sizeof" and op in ("Eq", "NotEq"):
+            t = ("sameSize", a.term[1], b.term[1])
+            return SV(t if op == "Eq" else ("pyNot", t), "P")
         if a.is_tensor() or b.is_tensor():
             if op not in CMP:
                 raise Unsupported("comparison " + op + " on tensors")
@@ -320,12 +509,14 @@ class Exec:
                 return SV(("pyEq", a.term, b.term), "P")
             if op in ("NotEq", "IsNot"):
                 return SV(("pyNot", ("pyEq", a.term, b.term)), "P")
+            if op in CMP:
+                return SV(("pyCmp", CMP[op], a.term, b.term), "P")
             raise Unsupported("comparison " + op + " on configuration values")
         raise Unsupported("comparison " + op + " of " + a.kind + " and " + b.kind)
 
     @staticmethod
     def need_operand(v):
-        if v.kind not in ("T", "B", "P", "U"):
+        if v.kind not in ("T", "B", "P", "U", "D"):
             raise Unsupported("operand of kind " + v.kind)
         if v.kind == "P" and v.term[0] in ("str", "none"):
             raise Unsupported("string operand of a tensor operation")
@@ -336,6 +527,10 @@ class Exec:
         if a.kind == "O" or b.kind == "O":
             return opaque("arithmetic on an opaque value")
         if not (a.is_tensor() or b.is_tensor()):
+            if a.kind == "P" and b.kind == "P" and op in ARITH:
+                # Python numbers: evaluated as a 0-d value (`eval` has one arithmetic)
+                self.need_operand(a), self.need_operand(b)
+                return SV(("arith", ARITH[op], a.term, b.term), "P")
             raise Unsupported("python-level arithmetic " + op)
         self.need_operand(a), self.need_operand(b)
         if op in ARITH:
@@ -368,11 +563,26 @@ class Exec:
             if i.kind == "P" and i.term[0] == "int" and -len(base.items) <= i.term[1] < len(base.items):
                 return base.items[i.term[1]]
             raise Unsupported("tuple index")
+        if base.is_tensor() and isinstance(e.slice, ast.Tuple):
+            raise Unsupported("multi-dimensional index " + ast.unparse(e.slice))
+        if base.is_tensor() and isinstance(e.slice, ast.Slice):
+            lo = self.ev(e.slice.lower, env) if e.slice.lower is not None else None
+            hi = self.ev(e.slice.upper, env) if e.slice.upper is not None else None
+            if e.slice.step is None and lo is not None and hi is None and lo.kind == "P" and lo.term == ("int", 1):
+                return SV(("dropFirst", base.term), base.kind)
+            if e.slice.step is None and lo is None and hi is not None and hi.kind == "P" and hi.term == ("int", -1):
+                return SV(("dropLast", base.term), base.kind)
+            raise Unsupported("slice other than [1:] / [:-1]")
         if base.is_tensor():
             i = self.ev(e.slice, env)
             if i.kind in ("B", "U"):
                 return SV(("maskSel", base.term, i.term), base.kind)
-            raise Unsupported("tensor index that is not a boolean mask")
+            if i.kind == "P" and i.term in (("int", 0), ("int", -1)):
+                return SV(("first" if i.term[1] == 0 else "last", base.term), base.kind)
+            if i.kind == "T":
+                # `target[indices]` of 1-d tensors = gather
+                return SV(("gatherLast", base.term, i.term), base.kind)
+            raise Unsupported("tensor index that is not a boolean mask, 0 / -1 or an index tensor")
         raise Unsupported("subscript of " + base.kind)
 
     # ------------------------------------------------------------------ calls
@@ -421,7 +631,19 @@ class Exec:
                     return SV(("isStr", x.term), "P")
                 if x.kind == "P" and ty == "int":
                     return SV(("isInt", x.term), "P")
+                if x.kind in ("P", "D", "T") and ty in ("int", "float", "str", "torch.Tensor", "Tensor"):
+                    return SV(({"int": "isInt", "float": "isFloat", "str": "isStr"}.get(ty, "isTensor"), x.term), "P")
                 raise Unsupported("isinstance(" + ast.unparse(e.args[1]) + ")")
+            if f.id == "len" and len(e.args) == 1 and not e.keywords:
+                x = self.ev(e.args[0], env)
+                if x.kind == "pseudo" and x.term[0] in ("shape", "sizeof"):
+                    return SV(("ndim", x.term[1]), "P")
+                raise Unsupported("len() of other than a shape")
+            if f.id == "float" and len(e.args) == 1 and not e.keywords:
+                x = self.ev(e.args[0], env)
+                if x.kind in ("P", "D"):
+                    return x                                  # Python numbers are exact rationals here
+                raise Unsupported("float() of a value of kind " + x.kind)
             if f.id in self.mod.alias:
                 return self.torch_call(self.mod.alias[f.id], e, env)
             if f.id in self.mod.funcs:
@@ -433,33 +655,44 @@ class Exec:
                 return self.torch_call(d, e, env)
             if d and d.split(".")[0] in ("logging", "warnings"):
                 return opaque("logging")
+            if d and d.split(".")[0] in self.mod.alias and d.split(".")[0] not in env \
+                    and self.mod.alias[d.split(".")[0]].startswith("torch."):
+                return self.torch_call(self.mod.alias[d.split(".")[0]] + "." + d.split(".", 1)[1], e, env)
             recv = self.ev(f.value, env)
             return self.method(recv, f.attr, e, env)
         raise Unsupported("call target")
 
     def inline(self, name, e, env):
-        if name not in self.kernel_names:
-            raise Unsupported("call of " + name + " (not a kernel of this module)")
+        if not name.startswith("_") or name.endswith("_input_check") or name.endswith("_param_check"):
+            raise Unsupported("call of " + name + " (not a private helper of this module)")
         if self.depth >= 3:
             raise Unsupported("inlining depth")
         fn = self.mod.funcs[name]
         params = [a.arg for a in fn.args.args]
-        if fn.args.vararg or fn.args.kwarg or fn.args.kwonlyargs or fn.args.posonlyargs:
+        if fn.args.vararg or fn.args.kwarg or fn.args.posonlyargs:
             raise Unsupported("signature of " + name)
-        bound = self.args_of(e, env, params, ignore=set(), required=[])
+        if len(e.args) > len(params):
+            raise Unsupported("too many positional arguments in the call of " + name)
+        kwonly = [a.arg for a in fn.args.kwonlyargs]
+        bound = self.args_of(e, env, params + kwonly, ignore=set(), required=[])
         for p, d in zip(params[len(params) - len(fn.args.defaults):], fn.args.defaults):
             if bound[p] is None:
                 bound[p] = self.ev(d, {})
+        for p, d in zip(kwonly, fn.args.kw_defaults):
+            if bound[p] is None and d is not None:
+                bound[p] = self.ev(d, {})
+        params = params + kwonly
         for p in params:
             if bound[p] is None:
                 raise Unsupported("missing argument " + p + " of " + name)
-            if bound[p].kind not in ("T", "B", "P"):
+            if bound[p].kind not in ("T", "B", "P", "D"):
                 raise Unsupported("argument of kind " + bound[p].kind + " passed to " + name)
         self.depth += 1
         try:
-            return SV(self.block(list(fn.body), bound), "R")
+            t = maybe_scripted(fn, self.block(list(fn.body), bound))
         finally:
             self.depth -= 1
+        return SV(t, "R" if returns_tuple(t) else "T")
 
     def torch_call(self, d, e, env):
         name = d.split(".", 1)[1] if d.startswith("torch.") else d
@@ -467,6 +700,8 @@ class Exec:
             a = self.args_of(e, env, ["condition", "input", "other"])
             c = self.tensor_arg(a["condition"])
             x, y = a["input"], a["other"]
+            if x.kind == "P" and x.term[0] in ("int", "flt") and y.kind == "T":
+                return SV(("whereT", c.term, x.term, y.term), "T")
             for v in (x, y):
                 if v.kind != "P" or v.term[0] not in ("int", "flt"):
                     raise Unsupported("torch.where with a non-literal branch value")
@@ -496,7 +731,74 @@ class Exec:
             v = a["data"]
             if v.kind == "P" and v.term[0] not in ("str", "none"):
                 return SV(("tensorOf", v.term), "T")
+            if v.kind == "tuple" and v.term == ("list",) and not v.items:
+                return SV(("emptyVec",), "T")
             raise Unsupported("torch.tensor of a non-number")
+        if name == "numel":
+            a = self.args_of(e, env, ["input"])
+            return SV(("numel", self.tensor_arg(a["input"]).term), "P")
+        if name == "square":
+            a = self.args_of(e, env, ["input"])
+            t = self.tensor_arg(a["input"]).term
+            return SV(("arith", "mul", t, t), "T")
+        if name == "pow":
+            a = self.args_of(e, env, ["input", "exponent"])
+            if a["exponent"].kind != "P" or a["exponent"].term not in (("int", 2), ("flt", Fraction(2))):
+                raise Unsupported("torch.pow with an exponent other than 2")
+            t = self.tensor_arg(a["input"]).term
+            return SV(("arith", "mul", t, t), "T")
+        if name == "reciprocal":
+            a = self.args_of(e, env, ["input"])
+            return SV(("arith", "div", ("int", 1), self.tensor_arg(a["input"]).term), "T")
+        if name == "log10":
+            a = self.args_of(e, env, ["input"])
+            return SV(("ufun", "log10", self.tensor_arg(a["input"]).term), "T")
+        if name == "trapz":
+            a = self.args_of(e, env, ["y", "x"])
+            return SV(("trapz", self.tensor_arg(a["y"]).term, self.tensor_arg(a["x"]).term), "T")
+        if name == "arange":
+            a = self.args_of(e, env, ["start", "end", "step"])
+            if a["start"].kind != "P" or a["end"].term != ("int", 0) or a["step"].term != ("int", -1):
+                raise Unsupported("torch.arange other than arange(n, 0, -1)")
+            return SV(("arangeDown", a["start"].term), "T")
+        if name == "zeros_like":
+            a = self.args_of(e, env, ["input"])
+            return SV(("zerosLike", self.tensor_arg(a["input"]).term), "T")
+        if name == "nn.functional.pad":
+            a = self.args_of(e, env, ["input", "pad", "mode", "value"], required=["input", "pad", "value"])
+            pd = a["pad"]
+            if not (pd.kind == "tuple" and [x.term for x in pd.items] == [("int", 0), ("int", 1)]) or a["mode"] is not None:
+                raise Unsupported("F.pad other than [0, 1]")
+            if a["value"].kind != "P" or a["value"].term[0] not in ("int", "flt"):
+                raise Unsupported("F.pad with a non-literal value")
+            x = self.tensor_arg(a["input"])
+            return SV(("padRight", x.term, a["value"].term), x.kind)
+        if name == "cat":
+            a = self.args_of(e, env, ["tensors", "dim"], required=["tensors"])
+            v = a["tensors"]
+            if a["dim"] is not None:
+                self.int_const(a["dim"], {0, -1})
+            if v.kind == "tuple" and len(v.items) == 2 and all(x.is_tensor() for x in v.items):
+                return SV(("cat", v.items[0].term, v.items[1].term), "T")
+            raise Unsupported("torch.cat of other than two tensors")
+        if name == "finfo":
+            a = self.args_of(e, env, ["type"])
+            v = a["type"]
+            if v.kind == "pseudo" and v.term[0] == "glob" and v.term[1].startswith("torch."):
+                return SV(("finfo", v.term[1][6:]), "pseudo")
+            if v.kind == "O" and v.term[1] == "dtype":
+                return SV(("finfo", None), "pseudo")
+            raise Unsupported("torch.finfo of other than a dtype")
+        if name == "sort":
+            a = self.args_of(e, env, ["input", "dim", "descending", "stable"], required=["input"])
+            if a["stable"] is None or const_of(a["stable"]) is not True:
+                raise Unsupported("torch.sort without stable=True (tie order unspecified)")
+            if a["descending"] is not None and const_of(a["descending"]) is not False:
+                raise Unsupported("torch.sort(descending=True)")
+            if a["dim"] is not None:
+                self.int_const(a["dim"], {1, -1})          # dim=1 of the 2-d tensors of these kernels is their last dimension
+            t = ("sortStable", self.tensor_arg(a["input"]).term)
+            return SV(("tuple",), "tuple", [SV(("fst", t), "T"), SV(("snd", t), "T")])
         if name == "all":
             a = self.args_of(e, env, ["input", "dim"])
             self.int_const(a["dim"], {1})
@@ -511,14 +813,22 @@ class Exec:
             a = self.args_of(e, env, ["input"])
             return SV(("isnan", self.tensor_arg(a["input"]).term), "B")
         if name == "nan_to_num":
-            a = self.args_of(e, env, ["input"])
-            return SV(("nanToNum", self.tensor_arg(a["input"]).term), "T")
+            a = self.args_of(e, env, ["input", "nan"], required=["input"])
+            if a["nan"] is None:
+                return SV(("nanToNum", self.tensor_arg(a["input"]).term), "T")
+            if a["nan"].kind != "P" or a["nan"].term[0] not in ("int", "flt"):
+                raise Unsupported("nan_to_num with a non-literal replacement")
+            return SV(("nanToNumTo", self.tensor_arg(a["input"]).term, a["nan"].term), "T")
         if name == "inner":
             a = self.args_of(e, env, ["input", "other"])
             return SV(("inner", self.tensor_arg(a["input"]).term, self.tensor_arg(a["other"]).term), "T")
         if name == "sum":
-            a = self.args_of(e, env, ["input"])
-            return SV(("sum", self.tensor_arg(a["input"]).term), "T")
+            a = self.args_of(e, env, ["input", "dim"], required=["input"])
+            t = self.tensor_arg(a["input"]).term
+            if a["dim"] is None:
+                return SV(("sum", t), "T")
+            d = self.int_const(a["dim"], {0, -1})
+            return SV(("sumDim0" if d == 0 else "sumLast", t), "T")
         if name == "mean":
             a = self.args_of(e, env, ["input"])
             return SV(("mean", self.tensor_arg(a["input"]).term), "T")
@@ -587,21 +897,91 @@ class Exec:
         if m in IDENT_METHODS:
             return recv
         if m == "sum":
-            a = self.args_of(e, env, ["dim"], required=[])
+            a = self.args_of(e, env, ["dim", "keepdim"], required=[])
+            keep = a["keepdim"] is not None and const_of(a["keepdim"]) is True
+            if a["keepdim"] is not None and const_of(a["keepdim"]) not in (True, False):
+                raise Unsupported("keepdim")
             if a["dim"] is None:
+                if keep:
+                    raise Unsupported("sum(keepdim=True) without dim")
                 return SV(("sum", t), "T")
-            self.int_const(a["dim"], {-1})
-            return SV(("sumLast", t), "T")
+            d = self.int_const(a["dim"], {-1, 0, 1} if keep else {-1, 0})
+            if keep:
+                if d == 0:
+                    raise Unsupported("sum(dim=0, keepdim=True)")
+                # dim=1 of a 2-d tensor is its last dimension
+                return SV(("unsqueezeLast", ("sumLast", t)), "T")
+            return SV(("sumDim0" if d == 0 else "sumLast", t), "T")
+        if m == "masked_scatter_":
+            a = self.args_of(e, env, ["mask", "source"])
+            return SV(("maskedScatter", t, self.tensor_arg(a["mask"]).term, self.tensor_arg(a["source"]).term), "T")
+        if m == "sort":
+            a = self.args_of(e, env, ["dim", "descending", "stable"], required=[])
+            if a["descending"] is None or const_of(a["descending"]) is not True or a["stable"] is not None:
+                raise Unsupported("tensor.sort other than sort(descending=True)")
+            if a["dim"] is not None:
+                self.int_const(a["dim"], {0, -1})
+            st = ("sortDesc", t)
+            return SV(("tuple",), "tuple", [SV(("fst", st), "T"), SV(("snd", st), "T")])
+        if m in ("diff", "cumsum", "flip"):
+            a = self.args_of(e, env, ["dim"], required=[] if m == "diff" else ["dim"])
+            if a["dim"] is not None:
+                self.int_const(a["dim"], {0, -1})
+            return SV((m, t), "T" if m == "cumsum" else recv.kind)
+        if m in ("new_ones", "new_zeros") and len(e.args) == 1 and isinstance(e.args[0], ast.Constant) and isinstance(e.args[0].value, int):
+            return SV(("full", ("int", e.args[0].value), ("int", 1 if m == "new_ones" else 0)), "T")
+        if m == "gather":
+            a = self.args_of(e, env, ["dim", "index"])
+            self.int_const(a["dim"], {1, -1})              # dim=1 of a 2-d tensor is its last dimension
+            return SV(("gatherLast", t, self.tensor_arg(a["index"]).term), "T")
+        if m == "squeeze" and not e.args and not e.keywords:
+            return SV(("squeeze", t), recv.kind)
+        if m in ("sign", "abs") and not e.args and not e.keywords:
+            return SV((m, t), "T")
+        if m == "clamp":
+            a = self.args_of(e, env, ["min", "max"], required=[])
+            if a["min"] is None or a["max"] is not None or a["min"].kind != "P":
+                raise Unsupported("clamp other than clamp(min=<number>)")
+            return SV(("clampMin", t, a["min"].term), "T")
+        if m == "size" and (e.args or e.keywords):
+            a = self.args_of(e, env, ["dim"])
+            d = self.int_const(a["dim"], {0, -1})
+            return SV(("shape0" if d == 0 else "sizeLast", t), "P")
+        if m == "view":
+            dims = [self.int_const(self.ev(x, env)) for x in e.args]
+            if e.keywords:
+                raise Unsupported("view with keywords")
+            if dims == [1, -1]:
+                return SV(("unsqueeze0", t), recv.kind)
+            if dims == [-1, 1]:
+                return SV(("unsqueezeLast", t), recv.kind)
+            if dims == [-1]:
+                return SV(("flatten", t), recv.kind)
+            raise Unsupported("view" + str(tuple(dims)))
+        if m == "repeat_interleave":
+            a = self.args_of(e, env, ["repeats", "dim"])
+            self.int_const(a["dim"], {0})
+            if a["repeats"].kind != "P":
+                raise Unsupported("repeat_interleave with a tensor of repeats")
+            return SV(("repeatRows", t, a["repeats"].term), recv.kind)
+        if m == "new_ones":
+            a = self.args_of(e, env, ["size"])
+            if a["size"].kind == "pseudo" and a["size"].term[0] == "sizeof":
+                return SV(("onesLike", a["size"].term[1]), "T")
+            raise Unsupported("new_ones of other than another tensor's size")
         if m == "mean" and not e.args and not e.keywords:
             return SV(("mean", t), "T")
         if m == "any" and not e.args and not e.keywords:
             return SV(("any", t), "B")
         if m == "numel" and not e.args and not e.keywords:
             return SV(("numel", t), "P")
+        if m == "dim" and not e.args and not e.keywords:
+            return SV(("ndim", t), "P")
         if m == "unsqueeze":
             a = self.args_of(e, env, ["dim"])
-            self.int_const(a["dim"], {-1})
-            return SV(("unsqueezeLast", t), recv.kind)
+            d = self.int_const(a["dim"], {-1, 0})
+            kind = "T" if recv.kind == "D" else recv.kind
+            return SV(("unsqueezeLast" if d == -1 else "unsqueeze0", t), kind)
         if m == "max":
             a = self.args_of(e, env, ["dim"])
             self.int_const(a["dim"], {1})
@@ -643,7 +1023,8 @@ def lrat(q: Fraction) -> str:
 
 
 ATOM = {"var": lambda t: f".var {lq(t[1])}", "int": lambda t: f".int {lint(t[1])}", "flt": lambda t: f".flt {lrat(t[1])}",
-        "str": lambda t: f".str {lq(t[1])}", "none": lambda t: ".none", "bool": lambda t: f".bool {'true' if t[1] else 'false'}"}
+        "str": lambda t: f".str {lq(t[1])}", "none": lambda t: ".none", "bool": lambda t: f".bool {'true' if t[1] else 'false'}",
+        "raise_": lambda t: f".raise_ .{t[1]}", "emptyVec": lambda t: ".emptyVec", "unsupported": lambda t: f".unsupported {lq(t[1])}"}
 
 
 def lean_term(t, ind=2) -> str:
@@ -654,8 +1035,11 @@ def lean_term(t, ind=2) -> str:
         raise Unsupported("an opaque value reaches the result (" + t[1] + ")")
     head = "." + t[0]
     args = list(t[1:])
-    if t[0] in ("cmp", "arith"):
+    if t[0] in ("cmp", "arith", "pyCmp"):
         head += " ." + t[1]
+        args = args[1:]
+    if t[0] == "ufun":
+        head += " " + lq(t[1])
         args = args[1:]
     parts = []
     for a in args:
@@ -668,67 +1052,122 @@ def lean_term(t, ind=2) -> str:
     return head + pad + pad.join(parts)
 
 
+SYMMETRIC = {("cmp", "eq"), ("cmp", "ne"), ("arith", "add"), ("arith", "mul"), ("land",), ("lor",), ("band",)}
+CANON_ARITH = True
+
+
+def canon(t, params):
+    """canonical operand order of the symmetric operations (`==`, `!=`, `&`, `|`, `+`, `*`): the operand that mentions the
+    earlier PARAMETER of the kernel comes first (ties keep the source order; an operand that mentions no parameter keeps its
+    place), so that `target == input` and `input == target` give one term.  Sound for `eval`: these operations are symmetric in value and in the shapes they accept."""
+    if not isinstance(t, tuple):
+        return t
+    t = tuple(canon(a, params) if isinstance(a, tuple) else a for a in t)
+    head = (t[0], t[1]) if t[0] in ("cmp", "arith") else (t[0],)
+    if head in SYMMETRIC and (CANON_ARITH or t[0] != "arith"):
+        a, b = t[-2], t[-1]
+        ka, kb = first_param(a, params), first_param(b, params)
+        if kb < ka and ka < len(params):          # an operand without a parameter (a constant) keeps its place
+            t = t[:-2] + (b, a)
+    return t
+
+
+def first_param(t, params) -> int:
+    if t[0] == "var":
+        return params.index(t[1]) if t[1] in params else len(params)
+    best = len(params) + 1
+    for a in t[1:]:
+        if isinstance(a, tuple):
+            best = min(best, first_param(a, params))
+    return best
+
+
 def size(t) -> int:
     return 1 + sum(size(a) for a in t[1:] if isinstance(a, tuple))
 
 
 # ---------------------------------------------------------------------- driver of the translation
 
-_cache = None
+_cache = {}
 
 
-def facts(force=False):
-    """[{id, module, func, params, term | None, reason | None, lean | None}] in KERNELS order"""
-    global _cache
-    if _cache is not None and not force:
-        return _cache
+def ann_kind(ann: str) -> str:
+    """kind of a parameter from its annotation: T (tensor), P (configuration value), D (tensor or number / tensor or None)"""
+    parts = {x.replace("torch.", "") for x in re.split(r"[|,\[\]]", ann.replace(" ", "")) if x} - {"Optional", "Union"}
+    if not parts or not parts <= {"Tensor", "float", "int", "str", "bool", "None"}:
+        raise Unsupported("parameter of type " + (ann or "?"))
+    if parts == {"Tensor"}:
+        return "T"
+    if "Tensor" not in parts:
+        return "P"
+    return "D"
+
+
+def unsupported_leaves(t, out=None):
+    out = [] if out is None else out
+    if isinstance(t, tuple):
+        if t and t[0] == "unsupported":
+            if t[1] not in out:
+                out.append(t[1])
+        else:
+            for a in t[1:]:
+                unsupported_leaves(a, out)
+    return out
+
+
+def facts(force=False, family="C04"):
+    """[{id, module, func, params, term | None, reason | None, lean | None, partial}] in table order"""
+    if family in _cache and not force:
+        return _cache[family]
+    fam = FAMILIES[family]
     mods = {}
     rows = []
     names = {}
-    for m, f, _k in KERNELS:
+    for m, f, _k in fam["kernels"]:
         names.setdefault(m, set()).add(f)
-    for m, f, k in KERNELS:
-        row = {"id": k, "module": m, "func": f, "params": [], "defaults": {}, "term": None, "reason": None, "lean": None}
+    for m, f, k in fam["kernels"]:
+        row = {"id": k, "module": m, "func": f, "params": [], "defaults": {}, "term": None, "reason": None, "lean": None, "partial": []}
         rows.append(row)
         try:
             if m not in mods:
-                mods[m] = Module(m)
+                mods[m] = Module(m, fam["base"])
             mod = mods[m]
             fn = mod.funcs.get(f)
             if fn is None:
                 raise Unsupported("function not found in " + m + ".py")
-            if fn.args.vararg or fn.args.kwarg or fn.args.kwonlyargs or fn.args.posonlyargs:
+            if fn.args.vararg or fn.args.kwarg or fn.args.posonlyargs:
                 raise Unsupported("signature")
-            params = [a.arg for a in fn.args.args]
+            allargs = list(fn.args.args) + list(fn.args.kwonlyargs)
+            params = [a.arg for a in allargs]
             row["params"] = params
-            for p, d in zip(params[len(params) - len(fn.args.defaults):], fn.args.defaults):
+            npos = len(fn.args.args)
+            for p, d in zip(params[npos - len(fn.args.defaults):npos], fn.args.defaults):
                 if isinstance(d, ast.Constant):
                     row["defaults"][p] = d.value
+            for a, d in zip(fn.args.kwonlyargs, fn.args.kw_defaults):
+                if isinstance(d, ast.Constant):
+                    row["defaults"][a.arg] = d.value
             env = {}
-            for a in fn.args.args:
+            for a in allargs:
                 ann = ast.unparse(a.annotation) if a.annotation is not None else ""
-                if "Tensor" in ann:
-                    env[a.arg] = SV(("var", a.arg), "T")
-                elif ann.replace(" ", "") in ("float", "int", "str", "bool", "str|None", "int|None", "float|None", "Optional[str]",
-                                               "Optional[int]", "Optional[float]"):
-                    env[a.arg] = SV(("var", a.arg), "P")
-                else:
-                    raise Unsupported("parameter " + a.arg + " of type " + (ann or "?"))
-            ex = Exec(mod, names[m] - {f})
-            term = ex.block(list(fn.body), env)
+                env[a.arg] = SV(("var", a.arg), ann_kind(ann))
+            ex = Exec(mod, names[m] - {f}, partial=k in fam["partial"])
+            term = canon(maybe_scripted(fn, ex.block(list(fn.body), env)), params)
             row["lean"] = lean_term(term, 2)
             row["term"] = term
+            row["partial"] = unsupported_leaves(term)
         except Unsupported as u:
             row["term"], row["lean"], row["reason"] = None, None, str(u)
         except (OSError, SyntaxError) as u:
             row["reason"] = "source not readable: " + type(u).__name__
-    _cache = rows
+    _cache[family] = rows
     return rows
 
 
-def emit(rows) -> str:
+def emit(rows, family="C04") -> str:
+    fam = FAMILIES[family]
     out = ["/- GENERATED by harness/translators/kernels.py from /repo's working tree — do not edit. -/",
-           "import TE.Model.TExpr", "namespace TE.Gen", "open TE TE.TX", ""]
+           "import TE.Model.TExpr", "namespace " + fam["ns"], "open TE TE.TX", ""]
     for r in rows:
         if r["term"] is not None:
             out.append(f"/-- `{r['module']}.py :: {r['func']}({', '.join(r['params'])})` -/")
@@ -742,14 +1181,20 @@ def emit(rows) -> str:
         else:
             body.append(f"  .untranslated {lq(r['id'])} {lq(r['reason'])}")
     out.append(",\n".join(body))
-    out += ["]", "", "end TE.Gen", ""]
+    out += ["]", ""]
+    if family != "C04":
+        out.append("/-- translated kernels with a branch outside the grammar (an `.unsupported` leaf) and the reasons -/")
+        out.append("def partials : List (String × List String) := [")
+        out.append(",\n".join(f"  ({lq(r['id'])}, [{', '.join(lq(x) for x in r['partial'])}])" for r in rows if r["partial"]))
+        out += ["]", ""]
+    out += ["end " + fam["ns"], ""]
     return "\n".join(out)
 
 
-def generate(rep=None):
-    rows = facts(force=True)
-    new = emit(rows)
-    p = LEAN / "TE" / "Gen" / "Kernels.lean"
+def generate(rep=None, family="C04"):
+    rows = facts(force=True, family=family)
+    new = emit(rows, family)
+    p = LEAN / "TE" / "Gen" / FAMILIES[family]["file"]
     if not p.exists() or p.read_text() != new:
         p.write_text(new)
     if rep is not None:
@@ -761,13 +1206,15 @@ def generate(rep=None):
 
 if __name__ == "__main__":
     import sys
-    rows = facts(force=True)
-    for r in rows:
-        if r["term"] is None:
-            print("UNTRANSLATED", r["id"], "--", r["reason"])
-        else:
-            print("OK", r["id"], r["params"], "size", size(r["term"]))
-            if "-v" in sys.argv:
-                print("   ", r["lean"])
-    if "-w" in sys.argv:
-        generate()
+    fams = [a for a in sys.argv[1:] if a in FAMILIES] or ["C04"]
+    for fam_ in fams:
+        rows = facts(force=True, family=fam_)
+        for r in rows:
+            if r["term"] is None:
+                print("UNTRANSLATED", r["id"], "--", r["reason"])
+            else:
+                print("OK", r["id"], r["params"], "size", size(r["term"]), ("PARTIAL " + str(r["partial"])) if r["partial"] else "")
+                if "-v" in sys.argv:
+                    print("   ", r["lean"])
+        if "-w" in sys.argv:
+            generate(family=fam_)
